@@ -1061,6 +1061,10 @@ def panic_sites(f):
         if b.get('cleanup'):
             continue
         t = b['t']
+        sp = t.get('sp') or {}
+        if sp.get('xo') == 'tokio::select' and sp.get('x'):
+            # plumbing generated by tokio::select! itself (branch bookkeeping), not user code
+            continue
         if t['k'] == 'assert':
             if t['msg'] in ('div_zero', 'rem_zero'):
                 # the assert message carries the dividend; the divisor is inside the condition Eq(divisor, 0)
